@@ -1,5 +1,5 @@
 # edited by hand; read by gen_manifest.py
-SOURCE_COMMITS[:] = ["edd3339", "4b2c4df"]
+SOURCE_COMMITS[:] = ["edd3339", "4b2c4df", "0730f36", "1e76e16"]
 CHECKS.update({
  "C01": ("Bounded symbolic model checking of the real Balance contract (go/ssa of the working tree): from a state built through the public API every method with fully symbolic arguments and signer set; supply = sum, non-negativity, supply moves only by mint/burn, refusals change nothing, notifications reproduce balances are asserted and discharged by SMT for all values inside the bound.",
          "state mint(a0,x0) mint(a1,x1) lock(a0->lk,y,until) with symbolic amounts, then ONE symbolic operation out of transfer/transferX/mint/burn/lock/newEpoch (public transfer with 0/19/20/21-byte addresses; 20-byte symbolic from/to free to alias); longer histories are outside the claim.", "DESIGN.md 4 C01"),
@@ -7,6 +7,12 @@ CHECKS.update({
          "as C01; 'the account is the calling contract' is exercised only through container->transferX in C05.", "DESIGN.md 4 C02"),
  "C09": ("Bounded symbolic model checking of lock/burn/newEpoch of the real Balance contract (ticks delivered directly and through the real Netmap fan-out) against a reference model of lock expiry written in the harness.",
          "one owner, two locks (amounts symbolic, until in -3..300), optional burn 0..y1 of the first, two ticks with symbolic epochs 1..300.", "DESIGN.md 4 C09"),
+ "C06": ("Bounded symbolic model checking of netmap.newEpoch over the real Netmap and Balance contracts plus two probe subscriber contracts: success iff Alphabet witness, growing epoch and no refusing subscriber; failed ticks change nothing; published maps, tick height, candidate set and the subscriber fan-out (once each, in subscription order, double subscription ignored) are asserted.",
+         "fixture of 3 legacy + 1 structured candidates and 3 subscribers; two ticks with symbolic epochs in -2..1000, symbolic Alphabet signature, one symbolic epoch refused by a subscriber; one transaction per block.", "DESIGN.md 4 C06"),
+ "C07": ("Bounded symbolic model checking of the candidate methods of the real Netmap contract against a reference state machine kept in the harness; method, target, state value and signer set of every step are symbolic.",
+         "2 (quick) / 3 (thorough) consecutive symbolic operations over a pool of two node keys; the reference model tracks one of them.", "DESIGN.md 4 C07"),
+ "C08": ("Bounded symbolic model checking of the snapshot ring and the per-epoch node lists of the real Netmap contract: the resize count is symbolic, queries snapshot(d)/snapshotByEpoch(e)/listNodes(e) are symbolic, every published map carries its epoch so that exactness is observable.",
+         "initial count c0 in {2,3,4,10}, up to 5 ticks before and 2 after ONE resize to a symbolic count 0..6 (the concrete first resize to c0 at epoch 0 is the second one); the quantifier's 30 epochs / counts up to 12 are outside the quick bound.", "DESIGN.md 4 C08"),
 })
 NA.update({
  "C15": "Deciding it means recompiling the contracts and comparing NEF/manifest/binding artifacts byte by byte, or equivalence checking of NeoVM byte code against the Go sources; the first is not solver-based, the second needs a symbolic NeoVM and a relational encoding of 11 contracts, out of reach here (DESIGN.md section 5).",
